@@ -36,6 +36,9 @@ BUILT = {
  "C02": ("exploration", "runtime monitor: LineEvent hook + icontract postconditions on Scanner.includes/is_last over an exhaustive enumeration of scan strings x blank layouts",
          "Exhaustive (within the tier's bounds) end-to-end runs; every run is observed by the line hook and the scanner contracts and compared with the denotation of the scan string. Held = no divergence on any enumerated (scan, layout) pair.",
          "denotation function of the scan AST written from README 'Scanning'; csv.reader's notion of a blank record", "DESIGN.md#c02"),
+ "C17": ("exploration", "runtime monitor: hook on LarkParser.parse counting _ambig nodes; round-trip of the transformer's component tree against the generating AST; metamorphic layout comparison of trees and LineEvent traces",
+         "Generated ASTs over every function name of the factory (125 with learned valid shapes) are rendered in several layouts and parsed by the real parser; each built tree must equal the written AST with no ambiguity node, and runnable programs must give identical traces, printouts and errors in every layout and with an outer comment.",
+         "AST->text printer of the generator (validated by the round trip itself); arity table learned from the code under test", "DESIGN.md#c17"),
 }
 
 def source_commits():
